@@ -127,7 +127,17 @@ def replace_typevars(ty: t.Any,
             # single-element union, return as value
             return next(iter(args))
 
-    return base[tuple(args)]  # type: ignore
+    args = tuple(args)
+    result = base[args]  # type: ignore
+    res_args = t.get_args(result)
+    if len(res_args) == len(args) and any(a is not b for (a, b) in zip(res_args, args)):
+        # `typing` memoises subscriptions and compares unions as sets, so it may hand back the alias made
+        # earlier for an equal-but-differently-spelled type (`Optional[list[Union[U, T]]]` for
+        # `Optional[list[Union[T, U]]]`). Member order matters to us, so build the alias afresh.
+        uncached = getattr(getattr(type(base), '__getitem__', None), '__wrapped__', None)
+        if uncached is not None:
+            result = uncached(base, args)
+    return result
 
 
 def get_type_hints(cls: type) -> t.Dict[str, t.Any]:
